@@ -1,5 +1,5 @@
 from vdriver import Group
-META = {'level': 'other'}
+META = {'level': 'other', 'assumptions': ['the statements of compute_plan between the two slices (scoring, sorting, std::ostringstream diagnostics, creation of the assignment list) are not under contract; the native replay re-checks all clauses end to end on a grid']}
 def groups(tier):
     t = 6 if tier == 'quick' else 9
     K = dict(unit='swarm_plan', harness='C22/plan.c', backend=['sat', 'cadical', 'cvc5'], timeout=600, checks=['--bounds-check', '--pointer-check'], replay='grid')
